@@ -872,6 +872,10 @@ class Machine(TreeEval):
                 return self.ev(e[2][0])
             if last == "into" and len(e[2]) == 1:
                 return self.ev(e[2][0])
+            if last.split("::<")[0] == "then_some" and "bool" in name and len(e[2]) == 2:
+                c = self.ev(e[2][0])
+                if c in (0, 1):
+                    return ("agg", "Some", (self.ev(e[2][1]),)) if c else ("agg", "None", ())
             if last == "unwrap_or":
                 v = self.ev(e[2][0])
                 return v[2][0] if v[1] in ("Some", "Ok") else self.ev(e[2][1])
@@ -1113,6 +1117,9 @@ def _self_mem(place, m):
             return val(p[1])
         if p[0] == "downcast":
             v = val(p[1])
+            while (isinstance(v, tuple) and len(v) == 4 and v[0] == "agg" and v[1] != p[2] and len(v[2]) == 1
+                   and isinstance(v[2][0], tuple) and v[2][0][:1] == ("agg",)):
+                v = v[2][0]                            # a newtype around the enum: `.0` is dropped from places
             if isinstance(v, tuple) and v and v[0] == "agg" and v[1] == p[2]:
                 return v[2][0] if len(v[2]) == 1 else v      # same convention as expressions: a one-field variant is its payload
             raise Unsupported("downcast of %r to %s" % (v, p[2]))
@@ -1120,6 +1127,8 @@ def _self_mem(place, m):
             v = val(p[1])
             if isinstance(v, int) and str(p[2]) == "0":
                 return v                               # transparent newtype
+            if p[1][0] == "downcast" and not (isinstance(v, tuple) and v[:1] == ("agg",) and len(v) == 4 and v[1] == p[1][2]):
+                return v                               # the payload of a one-field variant
             if isinstance(v, tuple) and v and v[0] == "agg":
                 idx = p[3] if len(p) > 3 and isinstance(p[3], int) else None
                 if idx is None and str(p[2]).lstrip("#").isdigit():
